@@ -370,23 +370,27 @@ PROPS["C02"] = dict(
 PROPS["C05"] = dict(
     _lt,
     runs={
-        "quick": [dict(harness="VerifHarness_C05_quick", reach=["alter", "rebuild", "ifnull"])],
-        "thorough": [dict(harness="VerifHarness_C05_thorough", reach=["alter", "rebuild", "ifnull"])],
+        "quick": [dict(harness="VerifHarness_C05_quick", reach=["alter", "rebuild", "ifnull"]),
+                  dict(harness="VerifHarness_C05_multi", reach=["planned", "wrapped"])],
+        "thorough": [dict(harness="VerifHarness_C05_thorough", reach=["alter", "rebuild", "ifnull"]),
+                     dict(harness="VerifHarness_C05_multi", reach=["planned", "wrapped"])],
     },
     bounds={
         "quick": "new table of 2 columns, each unchanged / added / modified (ChangeKind = symbolic integer 1..255) / renamed / generated, NULL-ability symbolic, "
-                 "default present or not; optionally a dropped old column and an added index",
+                 "default present or not (old side of a modified column too); optionally a dropped old column and an added index; multi-table family: "
+                 "three tables each untouched / changed in place / rebuilt / dropped, in 4 declaration orders",
         "thorough": "same with 3 columns",
     },
     assumptions=[
         "environment contract: SQLite pairs INSERT INTO t(c1..cn) SELECT e1..en positionally; ALTER TABLE ADD/RENAME COLUMN and index DDL keep rows",
         "column names are plain identifiers (quoting is C07)",
     ],
-    outside="execution on a real SQLite engine with data (values, affinity conversions); MySQL / PostgreSQL in-place ALTER semantics; tables not in the change set",
+    outside="execution on a real SQLite engine with data (values, affinity conversions); MySQL / PostgreSQL in-place ALTER semantics; whether the PRAGMA takes effect (it is a no-op inside a transaction)",
     claim="For every change descriptor within the bounds, the real SQLite planner (modifyTable / copyRows / alterable / alterTable) either alters in "
           "place exactly when every change is expressible by ALTER (and then never rebuilds), or rebuilds with create-new, copy, drop-old, rename in that "
           "order, copying exactly the surviving non-generated columns, each from itself or its old name (NULL-defaulting only for a column that became "
-          "NOT NULL with a default). Code-level core of C05 only.",
+          "NOT NULL with a default); in a plan over several tables every DROP TABLE (a rebuild's or a real one) lies inside the "
+          "PRAGMA foreign_keys off/on bracket, so dropping cannot cascade into other tables' rows. Code-level core of C05 only.",
     note="Bounded; the statement-shape parser in the harness is trusted. The data-level half of C05 needs a real engine and is outside the claim.",
 )
 
